@@ -32,7 +32,8 @@ fn rec_perm(state: &mut [BaseElement; STATE_WIDTH]) {
 /// the argument, so that "chunk j is absorbed as new(le64(chunk))" is checked without asking SAT to
 /// multiply (the contract of `new` itself is the Verus unit f64_core)
 fn stub_new(value: u64) -> BaseElement {
-    BaseElement::from_mont(value.rotate_left(17) ^ 0x5bd1_e995_9e37_79b9)
+    // the tag must be a canonical residue (< M), otherwise the real field addition misbehaves
+    BaseElement::from_mont((value.rotate_left(17) ^ 0x5bd1_e995_9e37_79b9) >> 1)
 }
 fn reset() {
     unsafe {
